@@ -163,7 +163,7 @@ def run(chk):
         return chk.finish()
 
     # ---- A: nesting paths against Runs.Model.at_point ----------------------------------------
-    n_paths = 150 if chk.tier == "quick" else 1200
+    n_paths = 150 if chk.tier == "quick" else 6000
     paths = [(["CBlock"], [BLOCKS[0]], False), (["CCall", "CForLoop", "CBlock"], [CALLS[0], LOOPS[0], BLOCKS[1]], True)]
     for c, ts in MODEL.items():
         for t in ts:
@@ -210,7 +210,7 @@ def run(chk):
                                "what": "after a run abandoned inside %s the next program sees names or bookkeeping of the dead run" % cs})
 
     # ---- B: histories ---------------------------------------------------------------------------
-    n_hist = 120 if chk.tier == "quick" else 1500
+    n_hist = 120 if chk.tier == "quick" else 8000
     hists = []
     fixed_dead = [
         {"src": "let leak = 1; { let b1 = 1; throw new Error('m'); }", "path": "/dead_m.ts"},
